@@ -1265,6 +1265,8 @@ def main(outfile):
     py2lean_ctor.main_ctor(os.path.join(os.path.dirname(outfile), 'TranslatedCtor.lean'), write_if_changed)
     import py2lean_timerblk                                      # separate module: Timer, class FSM (C04)
     py2lean_timerblk.main_timerblk(os.path.join(os.path.dirname(outfile), 'TranslatedTimerBlk.lean'), sys.modules[__name__])
+    import py2lean_blkctor                                          # separate module: constructors, name rules, circuit registry (C14)
+    py2lean_blkctor.main_blkctor(os.path.join(os.path.dirname(outfile), 'TranslatedBlkCtor.lean'), write_if_changed)
 
 if __name__ == '__main__':
     main(sys.argv[1])
